@@ -452,6 +452,19 @@ class DataclassSerializer:
             finally:
                 visited.remove(obj_id)
 
+        # Handle dicts - recurse on each key and value (None values are dropped)
+        if isinstance(obj, dict):
+            visited.add(obj_id)
+            try:
+                result = {}
+                for key, value in obj.items():
+                    processed = DataclassSerializer._serialize_with_tracking(value, visited)
+                    if processed is not None:
+                        result[DataclassSerializer._serialize_with_tracking(key, visited)] = processed
+                return result
+            finally:
+                visited.remove(obj_id)
+
         # For dataclasses, track and use cattrs
         if dataclasses.is_dataclass(obj) and not isinstance(obj, type):
             # Let cattrs do the heavy lifting (respects custom hooks, field mappings, etc.); it tracks the
@@ -468,7 +481,7 @@ class DataclassSerializer:
             finally:
                 visited.remove(obj_id)
 
-        # For everything else (dicts, primitives, etc.), let cattrs handle it
+        # For everything else (datetime, enums, bytes, etc.), let cattrs handle it
         result = unstructure_to_dict(obj, visited)
         return DataclassSerializer._remove_none_values(result)
 
